@@ -3,7 +3,7 @@ import os
 
 def drive_multi(check, cmds, tier, path, env):
     """cmds: list of (go_cmd_name, extra_args)"""
-    outs, parts = [], []
+    outs, parts, problems = [], [], []
     for i, (cmd, args) in enumerate(cmds):
         ok, o, exe = check.build_go(cmd)
         if not ok:
@@ -12,12 +12,20 @@ def drive_multi(check, cmds, tier, path, env):
         rc, o = check.sh([exe, "-tier", tier, "-out", part] + args, env=env, timeout=3000)
         outs.append(o)
         if rc != 0:
-            return False, "%s failed:\n%s" % (cmd, o[-3000:]), {}
-        parts.append(part)
+            # a harness that died (e.g. a panic on a goroutine of the implementation) does not hide what the
+            # other harnesses observe: its complete lines are kept and the failure is reported as a problem
+            problems.append(["harness-run", "harness run failed:\n%s failed:\n%s" % (cmd, o[-3000:])])
+            if os.path.exists(part):
+                with open(part) as g:
+                    data = g.read()
+                with open(part, "w") as g:
+                    g.write(data[:data.rfind("\n") + 1])
+        if os.path.exists(part):
+            parts.append(part)
     with open(path, "w") as f:
         for p in parts:
             with open(p) as g:
                 for line in g:
                     f.write(line)
             os.remove(p)
-    return True, "\n".join(outs), {}
+    return True, "\n".join(outs), ({"problems": problems} if problems else {})
